@@ -132,6 +132,15 @@ func (db *MultiBucketBackend) getBucketWithFilePrefixLocked(bucket string, prefi
 	bucketPath := path.Join(bucket, prefixPath)
 
 	dirEntries, err := afero.ReadDir(db.bucketFs, filepath.FromSlash(bucketPath))
+	if err != nil && prefixPath != "" {
+		// The prefix names a directory that does not exist (or a file): no key
+		// can match it, which is an empty listing and not a missing bucket.
+		if stat, serr := db.bucketFs.Stat(filepath.FromSlash(bucketPath)); os.IsNotExist(serr) || (serr == nil && !stat.IsDir()) {
+			if exists, _ := afero.DirExists(db.bucketFs, filepath.FromSlash(bucket)); exists {
+				return gofakes3.NewObjectList(), nil
+			}
+		}
+	}
 	if os.IsNotExist(err) {
 		return nil, gofakes3.BucketNotFound(bucket)
 	} else if err != nil {
@@ -151,7 +160,7 @@ func (db *MultiBucketBackend) getBucketWithFilePrefixLocked(bucket string, prefi
 		}
 
 		if entry.IsDir() {
-			response.AddPrefix(path.Join(prefixPath, prefixPart, entry.Name()) + "/")
+			response.AddPrefix(path.Join(prefixPath, entry.Name()) + "/")
 
 		} else {
 			size := entry.Size()
